@@ -73,6 +73,7 @@ reg("C18", ["c18_bytebuf.c"],
                 "thorough": "all reachable states of buffers of size 1..5 under all operations with operand lengths 0..size+1"})
 
 reg("C14", ["c14_varint.c"],
+    fuzz={"target": "fuzz/fz_varint.c", "runs": {"quick": 480000, "thorough": 32000000}, "max_len": 11},
     rule="'values-*': encode/length/to_sink/decode(buffer)/decode(source) round trip for u32/s32 (stride 211 through "
          "2^32 in quick, all 2^32 in thorough, plus 2^k +- 2) and u64/s64 (2^k +- 3, all one- and two-bit patterns "
          "and complements, seeded random magnitudes); 'strings-N': every octet string of length N <= 7 (quick) / "
@@ -284,14 +285,17 @@ reg("C09", ["c09_regp_safety.c"], level="fault_enumeration",
                  "header, otherwise a meta message is accepted; the size payload of a receive-overflow response is "
                  "optional; in the zone where 'fits' depends on whether the request or a full response header is "
                  "counted, ACK and ETXOVERFLOW are both accepted",
-                 "libFuzzer and MemorySanitizer targets are not part of the registered commands"])
+                 "the coverage-guided stage (libFuzzer, clang ASan+UBSan) carries the ledger, room-monitor and reply oracles and, for "
+                 "whole TCP frames, the classification oracle; it is bounded by -runs and seeded by VERIF_SEED",
+                 "sources with the getbuffer extension are used only as the code itself defines the extension (a window "
+                 "the source fills); MemorySanitizer is not used"])
 
 SAN_NOTE = ("Trusted: gcc 12 ASan/UBSan runtime, the harness' reference model, the fork-per-unit runner. "
             "Assumes little-endian x86-64; decides only the executions listed in the evidence file.")
 
 MANIFEST_TEXT = {
     "C09": dict(
-        technique="runtime monitoring + fault enumeration: boundary-length frames, boundary-size reads, allocation failure at every index, channel error at every octet, random/mutated streams; ledger allocator on exact-size poisoned blocks (freed blocks re-poisoned), backend room monitor, reference decoder on the replies; ASan/UBSan",
+        technique="runtime monitoring + fault enumeration: boundary-length frames, boundary-size reads in every header form, allocation failure at every index, channel error at every octet, random/mutated streams, multi-octet-chunk sources, and a coverage-guided libFuzzer stage; ledger allocator on exact-size poisoned blocks (freed blocks re-poisoned), backend room monitor, reference decoder on the replies; ASan/UBSan",
         text="The frame block is an exact-size poisoned-arena object, so any access beyond it - by the receiver, by "
              "the checksum code or by the backend through a too-generous limit - is an ASan report or a room-monitor "
              "failure; every block must be released exactly once at each quiescent point, also when the receiver "
@@ -382,7 +386,7 @@ MANIFEST_TEXT = {
              "refused with an empty access log; a bound on medium accesses per operation decides termination.",
         note=SAN_NOTE),
     "C20": dict(
-        technique="runtime monitoring: generated trees and exhaustive short strings against a reference reader, allocation-ledger leak oracle, exact-size poisoned inputs under ASan/UBSan",
+        technique="runtime monitoring: generated trees and exhaustive short strings against a reference reader, special long/deep/extreme inputs, allocation-ledger leak oracle, exact-size poisoned inputs under ASan/UBSan; coverage-guided libFuzzer stage with a printer-inverse oracle",
         text="Printer-inverse: generated trees are rendered with varied whitespace and hex case and the parse result "
              "is compared structurally, including the reported position. Failure behaviour: all short strings over "
              "a punctuation-heavy alphabet are judged by an independent recursive-descent reader; on error no tree "
@@ -416,7 +420,7 @@ MANIFEST_TEXT = {
              "by a bound on source calls, not by time.",
         note=SAN_NOTE),
     "C14": dict(
-        technique="runtime monitoring: exhaustive/boundary execution under ASan/UBSan against a reference LEB128 codec; exact-size poisoned decoder inputs",
+        technique="runtime monitoring: exhaustive/boundary execution under ASan/UBSan against a reference LEB128 codec; exact-size poisoned decoder inputs; coverage-guided libFuzzer stage with the same oracle",
         text="Every 32-bit value (thorough) and boundary/random 64-bit values go through encode, length query, sink "
              "encoder and both decoders and are compared with a reference codec; every short octet string over a "
              "continuation-heavy alphabet is decoded by buffer and source decoders from an exact-size poisoned block, "
